@@ -741,6 +741,41 @@ Proof.
   unfold cache_after in *. rewrite fold_left_app. exact IH.
 Qed.
 
+(* every Cache.Write carries the document of the store state AT that write: writes happen inside
+   the locked step that changed the state (store.go:403, 631, 580), so writes and installs are
+   totally ordered and the last write of any history describes the state at that write *)
+Lemma doc_secret_locked (s : store) k : doc (fst (secret_locked s k)) = doc s.
+Proof. unfold secret_locked. destruct (known s k); [destruct (has_handle s k)|]; reflexivity. Qed.
+
+Theorem writes_are_state_docs (w : world) e d : In (OFlush d) (snd (step w e)) ->
+  d = doc (wst (fst (step w e))).
+Proof.
+  destruct w as [st sv ofl]. destruct e as [now|c|n f u| |o|k|k t|k t fl|]; cbn [step].
+  - destruct ofl; intros [].
+  - destruct ofl as [fl|]; [|intros []]. destruct ((c <=? fjoin fl)%nat && negb (gone fl c)); [intros [H|[]]; discriminate|intros []].
+  - destruct ofl; [intros [H|[]]; discriminate|intros []].
+  - destruct ofl as [fl|]; [|intros []]. unfold finish.
+    destruct (poll (fsnap fl) (ans_of (finst fl))) as [ups|].
+    + unfold apply_updates. destruct ups as [|x r]; cbn [fst snd wst flush_out map app].
+      * intro H. apply repeat_spec in H. discriminate.
+      * intros [H|H]; [injection H as <-; reflexivity|apply repeat_spec in H; discriminate].
+    + cbn [fst snd wst flush_out map app]. intro H. apply repeat_spec in H. discriminate.
+  - intros [].
+  - destruct (secret st k). intros [H|[]]. discriminate.
+  - destruct (read st k t). intros [H|[]]. discriminate.
+  - destruct (known st k); [intros [H|[]]; discriminate|]. destruct (negb (allow st)); [intros [H|[]]; discriminate|].
+    destruct fl; [intros [H|[]]; discriminate|]. destruct (find k sv) as [[v b]|]; [|intros [H|[]]; discriminate].
+    cbn [lookup_install flush_out map app fst snd wst]. intros [H|[H|[]]]; [|discriminate].
+    injection H as <-. rewrite doc_secret_locked. reflexivity.
+  - cbn [shutdown_flush flush_out map fst snd wst]. intros [H|[]]. injection H as <-. reflexivity.
+Qed.
+
+Corollary writes_in_history (w : world) evs1 e d : In (OFlush d) (snd (step (run_w w evs1) e)) ->
+  d = doc (wst (run_w w (evs1 ++ [e]))).
+Proof.
+  intro H. unfold run_w. rewrite fold_left_app. cbn [fold_left]. apply writes_are_state_docs. exact H.
+Qed.
+
 (* the flush at the end of a successful poll: the whole new state, or nothing when nothing changed *)
 Theorem poll_flush (w : world) : In (ORes true) (snd (step w EEnd)) ->
   (exists k, snd (step w EEnd) = OFlush (doc (wst (fst (step w EEnd)))) :: repeat (ORes true) k)
@@ -860,4 +895,73 @@ Proof.
   destruct H as [P T]. apply period_ok_iff in P. destruct P as (r & B & E). exists r. split; auto.
   split; [apply jitter_bounds; auto|]. intros k Hk. unfold tick. rewrite <- E.
   destruct k as [|k]; cbn [nth]; [lia|]. cbn [length] in Hk. rewrite (ticks_from_nth _ _ _ T) by lia. lia.
+Qed.
+
+(* ---------- polls that take time *)
+Lemma next_start_regular (t0 p j d : Z) : (0 < p)%Z -> (0 <= d < p)%Z ->
+  next_start t0 p (t0 + j * p) d = (t0 + (j + 1) * p)%Z.
+Proof.
+  intros Hp Hd. unfold next_start. replace (t0 + j * p - t0)%Z with (j * p)%Z by lia.
+  rewrite Z.div_mul by lia. destruct (t0 + (j + 1) * p <=? t0 + j * p + d)%Z eqn:E; auto.
+  apply Z.leb_le in E. lia.
+Qed.
+
+Lemma starts_from_regular (t0 p : Z) : (0 < p)%Z -> forall ds j,
+  (forall d, In d ds -> (0 <= d < p)%Z) ->
+  forall k, (k <= length ds)%nat -> nth k (starts_from t0 p (t0 + j * p) ds) 0%Z = (t0 + (j + Z.of_nat k) * p)%Z.
+Proof.
+  intros Hp. induction ds as [|d r IH]; intros j B k Hk.
+  - cbn [length] in Hk. assert (k = O) by lia. subst. cbn. f_equal. lia.
+  - cbn [starts_from]. destruct k as [|k]; cbn [nth]; [f_equal; lia|].
+    rewrite next_start_regular by (auto; apply B; left; auto).
+    rewrite IH; [f_equal; lia| |cbn [length] in Hk; lia]. intros d' Hd'. apply B. right. auto.
+Qed.
+
+(* as long as every poll is shorter than the period, the k-th poll starts at t0 + k*period exactly *)
+Lemma starts_regular (t0 p : Z) ds : (0 < p)%Z -> (forall d, In d ds -> (0 <= d < p)%Z) ->
+  forall k, (k <= length ds)%nat -> nth k (starts t0 p ds) 0%Z = tick t0 p k.
+Proof.
+  intros Hp B k Hk. unfold starts, tick. replace (t0 + p)%Z with (t0 + 1 * p)%Z by lia.
+  rewrite starts_from_regular by auto. f_equal. lia.
+Qed.
+
+Lemma starts_from_length (t0 p : Z) ds : forall s, length (starts_from t0 p s ds) = S (length ds).
+Proof. induction ds as [|d r IH]; intro s; cbn [starts_from length]; auto. Qed.
+
+Lemma follows_starts (t0 p : Z) : forall l s e, follows t0 p s e l = true ->
+  s :: map fst l = starts_from t0 p s (durs_init s e l).
+Proof.
+  induction l as [|[s' e'] r IH]; intros s e H; [reflexivity|].
+  cbn [follows] in H. apply andb_prop in H. destruct H as [H F]. apply andb_prop in H. destruct H as [E _].
+  apply Z.eqb_eq in E. cbn [map fst durs_init starts_from]. f_equal. rewrite <- E. apply IH. exact F.
+Qed.
+
+(* the monitor on (start, end) instants is sound: the period is one the loop can draw, the start
+   instants are exactly those of a time.Ticker loop with the observed durations; and while every
+   poll is shorter than the period they lie on the grid t0 + k*period, one period apart *)
+Lemma cadence2_sound (i t0 : Z) l : cadence2_ok i t0 l = true ->
+  exists r, (0 <= r < jitter_bound i)%Z /\ (9 * i <= 10 * period i r <= 11 * i)%Z /\
+    match l with
+    | [] => False
+    | (s1, e1) :: rest =>
+      map fst l = starts t0 (period i r) (durs_init s1 e1 rest) /\
+      ((forall d, In d (durs_init s1 e1 rest) -> (0 <= d < period i r)%Z) ->
+       forall k, (k < length l)%nat -> nth k (map fst l) 0%Z = tick t0 (period i r) k)
+    end.
+Proof.
+  unfold cadence2_ok. destruct l as [|[s1 e1] rest]; [discriminate|]. intro H.
+  apply andb_prop in H. destruct H as [H F]. apply andb_prop in H. destruct H as [P _].
+  apply period_ok_iff in P. destruct P as (r & B & E). exists r. split; auto. split; [apply jitter_bounds; auto|].
+  rewrite E in F. apply follows_starts in F.
+  assert (S1 : s1 = (t0 + period i r)%Z) by lia.
+  assert (M : map fst ((s1, e1) :: rest) = starts t0 (period i r) (durs_init s1 e1 rest)).
+  { cbn [map fst]. unfold starts. rewrite <- S1. exact F. }
+  split; auto. intros Bd k Hk. rewrite M. apply starts_regular; auto.
+  - pose proof (@jitter_bounds i r B). unfold jitter_bound in B.
+    assert (0 < i)%Z. { destruct (Z_lt_le_dec 0 i); auto. exfalso.
+      assert (2 * i / 10 <= 0)%Z by (apply Z.div_le_upper_bound; lia). lia. }
+    lia.
+  - assert (L : length (starts t0 (period i r) (durs_init s1 e1 rest)) = S (length (durs_init s1 e1 rest))).
+    { unfold starts. apply starts_from_length. }
+    rewrite <- M in L. rewrite map_length in L. lia.
 Qed.
